@@ -129,7 +129,9 @@ def enc_op(op, trace):
             return 'con:other'          # an argument setSeed ignores: no seeding event, no change of state (same contract as an un-seeded construction)
         return 'set:none' if op[1] is None else f'set:{op[1]}'
     arg = op[2]
-    kind = 'int' if isinstance(arg, int) and not isinstance(arg, bool) else ('none' if arg is None else 'other')
+    import numbers
+    kind = 'int' if isinstance(arg, numbers.Integral) and not isinstance(arg, bool) else ('none' if arg is None else 'other')
+    arg = int(arg) if kind == 'int' else arg
     if op[0] == 'api':
         return f'api:int:{arg}:{nd}' if kind == 'int' else f'api:{kind}:{nd}'
     return f'con:int:{arg}' if kind == 'int' else f'con:{kind}'
@@ -140,14 +142,15 @@ def explore(res, rng, n):
     names = sorted(A)
     # (1) same integer seed, different prior generator states -> identical output
     for name in names:
-        for seed in (0, 7, 12345, 2 ** 31, 2 ** 32 - 1):
+        import numpy as _np
+        for seed in (0, 7, 12345, 2 ** 31, 2 ** 32 - 1, _np.int64(7), _np.int32(11), _np.uint8(3)):
             o1, _ = run_sequence([('api', name, seed)], A, Cn, prior=11)
             o2, _ = run_sequence([('api', name, seed)], A, Cn, prior=222)
             res.evaluations += 1
-            res.nontrivial.add(('seeded', name, seed))
+            res.nontrivial.add(('seeded', name, int(seed), type(seed).__name__))
             res.stat('seeded_call')
             if o1 != o2:
-                fail(res, 'two calls with the same integer seed differ', {'api': name, 'seed': seed}, [o1[0][:120], o2[0][:120]],
+                fail(res, 'two calls with the same integer seed differ', {'api': name, 'seed': int(seed), 'seed_type': type(seed).__name__}, [o1[0][:120], o2[0][:120]],
                      sig=f'C15:seeded-call-not-reproducible:{name}')
     # (2) random operation sequences: protocol conformance + global-seed replay + inert construction
     reqs, meta = [], []
